@@ -26,6 +26,17 @@ Time is an unbounded `Int` of unix nanoseconds (Go `time.Time`); DuckDB's µs in
     those with at least one file; empty ⇒ unpruned glob), query results with and without pruning, the transform
     cache (plan reused for the same SQL until the TTL expires).
 
+Re-synced to /repo b2903b5 (fix commits b6673db, 18e1f86, 5c0e6c5, a6e9521, 642ecb4, b2903b5):
+  * every pattern now starts with `\\b`: only a column written `time` / `x.time` (resp. literally `timestamp`) matches;
+    names merely ENDING in time/timestamp (`event_time`, `src_timestamp`) are invisible. The model has no column
+    literally named `timestamp` (assumption recorded in props/C18.py);
+  * `ExtractTimeRange` returns nil for statements with JOIN / UNION / INTERSECT / EXCEPT or more than one SELECT, and
+    when the WHERE text contains the word OR or NOT (`Pred.plainConj`);
+  * `TimeRange.EndInclusive`: false only when the end came from a `<` literal pattern; true for `<=`, BETWEEN, the
+    relative patterns and the start-only default; the loop then also emits the hour that STARTS at `End`;
+  * end-only ⇒ start = minPartitionDate (wide ranges hit the cap ⇒ unpruned);
+  * `NOW() ± INTERVAL 'n months'` clamps the day of month like DuckDB.
+
 Core-only, executable.
 -/
 import Arc.Generated.C18
@@ -125,11 +136,15 @@ def startOf (s : Int) : Int :=
   let cur0 := truncHour s
   if cur0 < minPartitionDateNs then minPartitionDateNs else cur0
 
-/-- `GeneratePartitionPaths`; `none` = nil (cap exceeded). -/
-def generatePaths (s e : Int) : Option Paths :=
+/-- loop bound: `current.Before(end) || (EndInclusive && current.Equal(end))` over integer ns is `current < end + 1`
+    when inclusive. -/
+def loopEnd (e : Int) (incl : Bool) : Int := if incl then e + 1 else e
+
+/-- `GeneratePartitionPaths`; `none` = nil (cap exceeded; the cap is computed on `End` itself). -/
+def generatePaths (s e : Int) (incl : Bool := false) : Option Paths :=
   let cur := startOf s
   if overCap cur e then none else
-  let hs := loop (fuelFor cur e) cur e
+  let hs := loop (fuelFor cur (loopEnd e incl)) cur (loopEnd e incl)
   some { hours := hs, days := dedupAdj (hs.map (· / 24)) }
 
 /-! ### civil calendar (proleptic Gregorian, as Go `time` and DuckDB) -/
@@ -224,7 +239,8 @@ def Lit.db (l : Lit) : Option Int :=
 inductive TUnit | second | minute | hour | day | week | month
 deriving Repr, DecidableEq
 
-/-- Go `now.AddDate(0, n, 0)`: month overflow normalises into the following month (Mar 31 − 1 month = Mar 2/3). -/
+/-- Go `now.AddDate(0, n, 0)` alone (the behaviour BEFORE fix b6673db, kept for the history example): month overflow
+    normalises into the following month (Mar 31 − 1 month = Mar 2/3). -/
 def goAddMonths (now n : Int) : Int :=
   let day := now / DAY
   let tod := now - day * DAY
@@ -253,7 +269,7 @@ def relGo (now : Int) (plus : Bool) (n : Nat) (u : TUnit) : Int :=
   | .hour => now + k * HOUR
   | .day => now + k * DAY
   | .week => now + k * 7 * DAY
-  | .month => goAddMonths now k
+  | .month => dbAddMonths now k   -- since fix b6673db: AddDate(0,n,0), then back to the target month's last day on overflow
 
 def relDb (now : Int) (plus : Bool) (n : Nat) (u : TUnit) : Int :=
   let k : Int := if plus then n else -(n : Int)
@@ -310,14 +326,13 @@ def Col.val : Col → Row → Int
   | .likeTs, r => r.c2
   | .plain, r => r.v
 
-/-- the regex fragment `time` followed by `\s*<op>` matches the end of the written name. -/
+/-- `\\btime\\s*<op>` matches the written name: only `time` / `alias.time` (word boundary since fix 18e1f86). -/
 def Col.endsInTime : Col → Bool
   | .time => true
-  | .likeTime => true
   | _ => false
 
+/-- `\\btimestamp\\s*<op>`: a column literally named `timestamp` — none in the model (see header). -/
 def Col.endsInTimestamp : Col → Bool
-  | .likeTs => true
   | _ => false
 
 inductive Cmp | ge | gt | lt | le
@@ -360,6 +375,14 @@ def Pred.text : Pred → List BAtom
   | .and p q => p.text ++ q.text
   | .or p q => p.text ++ q.text
   | .not p => p.text
+
+/-- no OR, no NOT, no subquery: otherwise `ExtractTimeRange` returns nil (fixes 642ecb4, b2903b5). -/
+def Pred.plainConj : Pred → Bool
+  | .atom (.base _) => true
+  | .atom (.sub _ _) => false
+  | .and p q => p.plainConj && q.plainConj
+  | .or _ _ => false
+  | .not _ => false
 
 abbrev Valuation := Nat → Row → Bool
 
@@ -432,18 +455,42 @@ def startBound (now : Int) (txt : List BAtom) : Option Int :=
   | some (a, _) => some a
   | none => firstSome [absStart now txt, relPat now true false txt, relPat now true true txt]
 
-def endBound (now : Int) (txt : List BAtom) : Option Int :=
-  match betweenPat now txt with
-  | some (_, b) => some b
-  | none => firstSome [absEnd now txt, relPat now false false txt, relPat now false true txt]
+def firstSomeP : List (Option Int × Bool) → Option (Int × Bool)
+  | [] => none
+  | (some x, b) :: _ => some (x, b)
+  | (none, _) :: xs => firstSomeP xs
 
-/-- `ExtractTimeRange` (on a statement that has a WHERE clause whose text is `txt`). -/
-def extract (now : Int) (txt : List BAtom) : Option (Int × Int) :=
-  match startBound now txt, endBound now txt with
-  | some s, some e => some (s, e)
-  | some s, none => some (s, now + startOnlyAddNs)
-  | none, some e => some (defaultStartNs, e)
+/-- end bound and its inclusivity: `<` patterns ⇒ exclusive, `<=` patterns ⇒ inclusive. -/
+def absEndP (now : Int) (txt : List BAtom) : Option (Int × Bool) :=
+  firstSomeP [(absPat now Col.endsInTime .lt txt, false), (absPat now Col.endsInTime .le txt, true),
+              (absPat now Col.endsInTimestamp .lt txt, false), (absPat now Col.endsInTimestamp .le txt, true)]
+
+/-- BETWEEN ⇒ inclusive; relative patterns (they match `<` and `<=` alike) ⇒ inclusive. -/
+def endBoundP (now : Int) (txt : List BAtom) : Option (Int × Bool) :=
+  match betweenPat now txt with
+  | some (_, b) => some (b, true)
+  | none =>
+    match absEndP now txt with
+    | some x => some x
+    | none =>
+      match firstSome [relPat now false false txt, relPat now false true txt] with
+      | some e => some (e, true)
+      | none => none
+
+def endBound (now : Int) (txt : List BAtom) : Option Int := (endBoundP now txt).map (·.1)
+
+/-- `ExtractTimeRange` on the WHERE text `txt` of a single-table plain-conjunction statement:
+    (start, end, EndInclusive). Start-only ⇒ end = now + 24 h (EndInclusive stays true); end-only ⇒ start = floor. -/
+def extract (now : Int) (txt : List BAtom) : Option (Int × Int × Bool) :=
+  match startBound now txt, endBoundP now txt with
+  | some s, some (e, i) => some (s, e, i)
+  | some s, none => some (s, now + startOnlyAddNs, true)
+  | none, some (e, i) => some (defaultStartNs, e, i)
   | none, none => none
+
+/-- `ExtractTimeRange` of `SELECT … FROM m WHERE p`. -/
+def extractStmt (now : Int) (p : Pred) : Option (Int × Int × Bool) :=
+  if p.plainConj then extract now p.text else none
 
 /-! ## (D) data sets, read plans, results -/
 
@@ -481,11 +528,11 @@ def partsOfPaths (ps : Paths) : List Part := ps.hours.map Part.hour ++ ps.days.m
 
 /-- `OptimizeTablePath` on a cache miss: extract, generate, keep the globs that match at least one file;
     nothing left ⇒ fall back to the unpruned glob. -/
-def planFor (range : Option (Int × Int)) (ds : Dataset) : Plan :=
+def planFor (range : Option (Int × Int × Bool)) (ds : Dataset) : Plan :=
   match range with
   | none => none
-  | some (s, e) =>
-    match generatePaths s e with
+  | some (s, e, incl) =>
+    match generatePaths s e incl with
     | none => none
     | some ps =>
       let live := (partsOfPaths ps).filter (fun p => ds.any (fun f => decide (f.part = p)))
@@ -497,23 +544,26 @@ def readWith (plan : Plan) (ds : Dataset) : Dataset :=
   | none => ds
   | some parts => ds.filter (fun f => decide (f.part ∈ parts))
 
-def readSet (range : Option (Int × Int)) (ds : Dataset) : Dataset := readWith (planFor range ds) ds
+def readSet (range : Option (Int × Int × Bool)) (ds : Dataset) : Dataset := readWith (planFor range ds) ds
 
 /-- single-table query `SELECT … FROM m WHERE p`: rows returned with pruning. -/
 def runPruned (now : Int) (σ : Valuation) (p : Pred) (ds : Dataset) : List Row :=
-  (rowsOf (readSet (extract now p.text) ds)).filter (p.eval now σ)
+  (rowsOf (readSet (extractStmt now p) ds)).filter (p.eval now σ)
 
 /-- the same query when every file of the measurement is read. -/
 def runFull (now : Int) (σ : Valuation) (p : Pred) (ds : Dataset) : List Row :=
   (rowsOf ds).filter (p.eval now σ)
 
 /-- `SELECT … FROM a JOIN b ON a.v = b.v WHERE p(a)`: query.go prunes EVERY table reference of the statement
-    with the range extracted from the whole statement text. -/
+    with the range extracted from the whole statement text — which since fix b2903b5 is nil for a statement
+    with JOIN / set operations / more than one SELECT (`multiTableRange`). -/
+def multiTableRange : Option (Int × Int × Bool) := none
+
 def runJoinWith (now : Int) (σ : Valuation) (p : Pred) (ra rb : List Row) : List (Row × Row) :=
   ra.flatMap (fun a => (rb.filter (fun b => decide (a.v = b.v) && p.eval now σ a)).map (fun b => (a, b)))
 
 def runJoinPruned (now : Int) (σ : Valuation) (p : Pred) (a b : Dataset) : List (Row × Row) :=
-  let rng := extract now p.text
+  let rng := multiTableRange
   runJoinWith now σ p (rowsOf (readSet rng a)) (rowsOf (readSet rng b))
 
 def runJoinFull (now : Int) (σ : Valuation) (p : Pred) (a b : Dataset) : List (Row × Row) :=
@@ -522,7 +572,7 @@ def runJoinFull (now : Int) (σ : Valuation) (p : Pred) (a b : Dataset) : List (
 /-- `SELECT … WHERE p UNION ALL SELECT … WHERE q` over the same measurement: the WHERE text of the statement
     runs from the first WHERE to the end, so both branches are pruned with the atoms of both. -/
 def runUnionPruned (now : Int) (σ : Valuation) (p q : Pred) (ds : Dataset) : List Row :=
-  let rs := rowsOf (readSet (extract now (p.text ++ q.text)) ds)
+  let rs := rowsOf (readSet multiTableRange ds)
   rs.filter (p.eval now σ) ++ rs.filter (q.eval now σ)
 
 def runUnionFull (now : Int) (σ : Valuation) (p q : Pred) (ds : Dataset) : List Row :=
@@ -531,7 +581,7 @@ def runUnionFull (now : Int) (σ : Valuation) (p q : Pred) (ds : Dataset) : List
 /-- query answered from the transform cache: the plan computed for the data set `ds0` at caching time is
     applied to the current data set. -/
 def runCached (now : Int) (σ : Valuation) (p : Pred) (ds0 ds : Dataset) : List Row :=
-  (rowsOf (readWith (planFor (extract now p.text) ds0) ds)).filter (p.eval now σ)
+  (rowsOf (readWith (planFor (extractStmt now p) ds0) ds)).filter (p.eval now σ)
 
 /-- does a cached plan survive the post-compaction hook `QueryHandler.InvalidateCaches`? It is gone only if the
     hook clears the transform cache (whose entries embed the pruned path list) AND the pruner's partition / glob
